@@ -3215,7 +3215,8 @@ func (db *DB) newGuardSet(owner uint64) *GuardSet {
 // Returns an error if no locks are supplied.
 func (db *DB) TryLocks(ctx context.Context, owner uint64, lockTypes []LockType) (bool, error) {
 	guardSet := db.CreateGuardSetIfNotExists(owner)
-	for _, lockType := range lockTypes {
+	prevStates := make([]RWMutexState, 0, len(lockTypes))
+	for i, lockType := range lockTypes {
 		guard := guardSet.Guard(lockType)
 
 		// There is a race condition where a passive checkpoint can copy out data
@@ -3231,9 +3232,11 @@ func (db *DB) TryLocks(ctx context.Context, owner uint64, lockTypes []LockType) 
 			db.writeLock.State() != RWMutexStateUnlocked && // is there a writer?
 			guardSet.write.State() != RWMutexStateExclusive { // is this owner the writer?
 			TraceLog.Printf("[TryLock(%s)]: type=%s owner=%d status=IMPLICIT-FAIL", db.name, lockType, owner)
+			restoreGuardStates(guardSet, lockTypes[:i], prevStates)
 			return false, nil
 		}
 
+		prevStates = append(prevStates, guard.State())
 		ok := guard.TryLock()
 
 		status := "OK"
@@ -3243,6 +3246,7 @@ func (db *DB) TryLocks(ctx context.Context, owner uint64, lockTypes []LockType) 
 		TraceLog.Printf("[TryLock(%s)]: type=%s owner=%d status=%s", db.name, lockType, owner, status)
 
 		if !ok {
+			restoreGuardStates(guardSet, lockTypes[:i], prevStates)
 			return false, nil
 		}
 
@@ -3257,6 +3261,23 @@ func (db *DB) TryLocks(ctx context.Context, owner uint64, lockTypes []LockType) 
 		//}
 	}
 	return true, nil
+}
+
+// restoreGuardStates returns the guards of a refused multi-lock request to the
+// states they had before the request. A lock request that covers several lock
+// bytes is a single fcntl() call: it is granted as a whole or it changes nothing.
+func restoreGuardStates(guardSet *GuardSet, lockTypes []LockType, prevStates []RWMutexState) {
+	for i := len(lockTypes) - 1; i >= 0; i-- {
+		guard := guardSet.Guard(lockTypes[i])
+		switch prevStates[i] {
+		case RWMutexStateUnlocked:
+			guard.Unlock()
+		case RWMutexStateShared:
+			guard.TryRLock()
+		case RWMutexStateExclusive:
+			guard.TryLock()
+		}
+	}
 }
 
 // CanLock returns true if all locks can acquire a write lock.
@@ -3276,7 +3297,9 @@ func (db *DB) CanLock(ctx context.Context, owner uint64, lockTypes []LockType) (
 // Returns an error if no locks are supplied.
 func (db *DB) TryRLocks(ctx context.Context, owner uint64, lockTypes []LockType) bool {
 	guardSet := db.CreateGuardSetIfNotExists(owner)
-	for _, lockType := range lockTypes {
+	prevStates := make([]RWMutexState, 0, len(lockTypes))
+	for i, lockType := range lockTypes {
+		prevStates = append(prevStates, guardSet.Guard(lockType).State())
 		ok := guardSet.Guard(lockType).TryRLock()
 
 		status := "OK"
@@ -3286,6 +3309,7 @@ func (db *DB) TryRLocks(ctx context.Context, owner uint64, lockTypes []LockType)
 		TraceLog.Printf("[TryRLock(%s)]: type=%s owner=%d status=%s", db.name, lockType, owner, status)
 
 		if !ok {
+			restoreGuardStates(guardSet, lockTypes[:i], prevStates)
 			return false
 		}
 	}
